@@ -46,7 +46,7 @@ def parseNat? (s : String) : Option Nat :=
 def parseVal? (s : String) : Option (Option Bytes) :=
   if s == "nil" then some none else (ofHex? s).map some
 
-def parseOp (x y : UInt8) (s : String) : Op :=
+def parseOp (x y : UInt8) (sep : Bool) (s : String) : Op :=
   match words s with
   | ["put", k, v] => match ofHex? k, parseVal? v with
     | some k, some v => .put k v
@@ -92,15 +92,18 @@ def parseOp (x y : UInt8) (s : String) : Op :=
   | ["start"] => .start
   | ["commit"] => .commit
   | ["rollback"] => .rollback
-  | ["snap"] => .snap x y
+  | ["snap"] => .snap x y sep
   | ["const"] => .const
   | _ => .bad
 
 def parseLine (line : String) : Option (List Op) :=
   match line.splitOn "|" with
-  | [alpha, body] =>
-    if alpha == "0" then some ((body.splitOn ";").map (parseOp 0x61 0x71))
-    else if alpha == "1" then some ((body.splitOn ";").map (parseOp 0x61 0x62))
+  | [hdr, body] =>
+    let go (y : UInt8) (sep : Bool) := some ((body.splitOn ";").map (parseOp 0x61 y sep))
+    if hdr == "0" then go 0x71 false
+    else if hdr == "1" then go 0x62 false
+    else if hdr == "2" then go 0x71 true
+    else if hdr == "3" then go 0x62 true
     else none
   | _ => none
 
@@ -127,6 +130,118 @@ def runI (ops : List Op) : List String :=
 def runS (ops : List Op) : List String :=
   ((specRun Hc Hc { back := Logical.empty, stack := [] } ops).2).map showOut
 
+/-! ### which known finding explains a difference -/
+
+structure Scan where
+  m : TS Mem
+  i : TS Logical
+  s : SS
+  mainStrs : List Bytes     -- strings used as main keys so far
+  kidStrs : List Bytes      -- strings used as child-trie keys so far
+
+def bM := memBackend H
+def bI := idealBackend Hc Hc
+
+/-- logical content of every level of the model over the ideal backend (innermost first) -/
+def absI (t : TS Logical) : List Logical :=
+  t.txs.map (fun d => (applyToTrie bI t.base d.sortedOrder).getD t.base) ++ [t.base]
+
+def absS (s : SS) : List Logical := s.stack ++ [s.back]
+
+def overlapsRegion (p : Bytes) : Bool := p.isPrefixOf childPrefix || childPrefix.isPrefixOf p
+
+def diffTouchesRegion (d : Diff) : Bool :=
+  (KMap.keys d.c.upserts).any Logical.isChildKey || d.c.deletes.any Logical.isChildKey
+
+/-- some child-root entry of the main trie has no object under its hash -/
+def hasDangling (m : Mem) : Bool :=
+  (Trie.entries m.main).any (fun e =>
+    Logical.isChildKey e.1 && !(KMap.has (toHash (e.2.getD [])) m.kids))
+
+def opMainKeys : Op → List Bytes
+  | .put k _ => [k]
+  | .del k => [k]
+  | _ => []
+
+def opKid : Op → List Bytes
+  | .cput c _ _ => [c] | .cget c _ => [c] | .cdel c _ => [c] | .cclr c _ => [c]
+  | .cclrl c _ _ => [c] | .cnext c _ => [c] | .ckeys c _ => [c] | .kill c => [c]
+  | .killl c _ => [c] | .croot c => [c]
+  | _ => []
+
+def backendTag (hdr : String) (sc : Scan) (op : Op) (post : TS Mem) (out : String) : String :=
+  let depth0 := sc.m.txs.isEmpty
+  if hasDangling post.base || hasDangling sc.m.base || out == "panic" then "child-tries-keyed-by-hash"
+  else
+    let stale := depth0 && (match op with
+      | .cclr _ _ => true | .cclrl _ _ _ => true | .killl _ (some _) => true | _ => false)
+    if stale then "child-root-stale-outside-tx"
+    else
+      let region := match op with
+        | .put k _ => Logical.isChildKey k
+        | .del k => Logical.isChildKey k
+        | .clr p => overlapsRegion p
+        | .clrl p _ => overlapsRegion p
+        | .commit => (match sc.m.txs with | [d] => diffTouchesRegion d | _ => false)
+        | _ => false
+      if region then "child-root-key-unprotected"
+      else
+        let quirk := hdr == "1" || hdr == "3" || (match op with
+          | .clrl _ _ => depth0 | .cclrl _ _ _ => depth0 | .put k _ => k.isEmpty | .del k => k.isEmpty
+          | .get k => k.isEmpty | .commit => true | _ => false)
+        if quirk then "base-trie-c02" else ""
+
+def tsTag (sc : Scan) (op : Op) (oI oS : Out) : String :=
+  let depth0 := sc.i.txs.isEmpty
+  let coll := sc.mainStrs.any (fun k => sc.kidStrs.contains k)
+  match op, oI, oS with
+  | .croot _, _, _ => "child-root-ignores-overlay"
+  | .clrl _ n, .cnt a _, .cnt b _ =>
+    if coll then "deletes-shared-by-main-and-child"
+    else if a == b && !depth0 then "alldeleted-counts-nonmatching"
+    else if a == b && n == 0 then "limit0-reports-remaining"
+    else ""
+  | .cclrl c _ n, .cnt a _, .cnt b _ =>
+    if coll then "deletes-shared-by-main-and-child"
+    else if (KMap.find c sc.s.top.kids).isNone && (KMap.find c sc.s.back.kids).isNone && depth0 then
+      "nochild-reports-remaining"
+    else if a == b && !depth0 then "alldeleted-counts-nonmatching"
+    else if a == b && n == 0 then "limit0-reports-remaining"
+    else ""
+  | .killl c _, .cnt _ _, .cnt _ _ =>
+    if coll then "deletes-shared-by-main-and-child"
+    else if (KMap.find c sc.s.top.kids).isNone && (KMap.find c sc.s.back.kids).isNone then
+      "nochild-reports-remaining"
+    else ""
+  | _, _, _ => if coll then "deletes-shared-by-main-and-child" else ""
+
+/-- the first part of two `snap` outputs that differs, as the read op that produced it -/
+def firstDiffRead : List Op → List Out → List Out → Option (Op × Out × Out)
+  | op :: r, a :: ra, b :: rb => if showOut a == showOut b then firstDiffRead r ra rb else some (op, a, b)
+  | _, _, _ => none
+
+/-- tag of the first op at which the three runs part -/
+def findTag (hdr : String) : Scan → List Op → String
+  | _, [] => ""
+  | sc, op :: r =>
+    let xm := stepTS bM memDumper Diff.sortedOrder sc.m op
+    let xi := stepTS bI idealDumper Diff.sortedOrder sc.i op
+    let xs := specStep Hc Hc sc.s op
+    let sc0 : Scan := { sc with mainStrs := opMainKeys op ++ sc.mainStrs, kidStrs := opKid op ++ sc.kidStrs }
+    let dumpM := showOut (.dump (bM.entries xm.1.base) (memDumper.kids xm.1.base) (bM.hash xm.1.base))
+    let dumpI := showOut (.dump (bI.entries xi.1.base) (idealDumper.kids xi.1.base) (bI.hash xi.1.base))
+    if showOut xm.2 != showOut xi.2 || dumpM != dumpI || xm.1.txs != xi.1.txs then
+      backendTag hdr sc0 op xm.1 (showOut xm.2)
+    else if showOut xi.2 != showOut xs.2 then
+      match op, xi.2, xs.2 with
+      | .snap x y sep, .many a, .many b =>
+        match firstDiffRead (snapReads x y sep) a b with
+        | some (rop, oa, ob) => tsTag sc0 rop oa ob
+        | none => tsTag sc0 op xi.2 xs.2
+      | _, _, _ => tsTag sc0 op xi.2 xs.2
+    else if absI xi.1 != absS xs.1 then tsTag sc0 op xi.2 xs.2
+    else findTag hdr { sc0 with m := xm.1, i := xi.1, s := xs.1 } r
+
 def step (line : String) : String :=
   match parseLine line with
   | none => "bad-op"
@@ -135,7 +250,10 @@ def step (line : String) : String :=
     let s := joinS ";" (runS ops)
     if m == s then m
     else
-      let i := joinS ";" (runI ops)
-      m ++ "\tspec=" ++ s ++ "\tkf=" ++ (if m == i then "todo-ts" else "todo-backend")
+      let hdr := (line.splitOn "|").headD ""
+      let tag := findTag hdr
+        { m := { base := Mem.empty, txs := [] }, i := { base := Logical.empty, txs := [] },
+          s := { back := Logical.empty, stack := [] }, mainStrs := [], kidStrs := [] } ops
+      m ++ "\tspec=" ++ s ++ (if tag.isEmpty then "" else "\tkf=" ++ tag)
 
 def main : IO Unit := runDriver step
